@@ -178,6 +178,14 @@ func NodePath(n Node) string {
 // similar to an XPath but currently has no wildcarding.  For example:
 // "/if:interfaces/if:interface" and "../config".
 func FindNode(n Node, path string) (Node, error) {
+	return findNode(n, path, map[Node]bool{})
+}
+
+// findNode is FindNode.  The uses statements that are being followed are
+// kept in using, so that a uses statement that cannot be resolved without
+// looking at itself again (its grouping does not exist, or uses itself) is not
+// followed forever.
+func findNode(n Node, path string, using map[Node]bool) (Node, error) {
 	if path == "" {
 		return n, nil
 	}
@@ -204,9 +212,12 @@ func FindNode(n Node, path string) (Node, error) {
 		n = mod
 		prefix, _ := getPrefix(parts[0])
 		if mod.Kind() == "submodule" {
+			if mod.BelongsTo == nil || mod.BelongsTo.Prefix == nil {
+				return nil, fmt.Errorf("%s: submodule does not say which module it belongs to", mod.Name)
+			}
 			m := mod.Modules.Modules[mod.BelongsTo.Name]
 			if m == nil {
-				return nil, fmt.Errorf("%s: unknown module %s", m.Name, mod.BelongsTo.Name)
+				return nil, fmt.Errorf("%s: unknown module %s", mod.Name, mod.BelongsTo.Name)
 			}
 			if prefix == "" || prefix == mod.BelongsTo.Prefix.Name {
 				goto processing
@@ -214,12 +225,16 @@ func FindNode(n Node, path string) (Node, error) {
 			mod = m
 		}
 
-		if prefix == "" || prefix == mod.Prefix.Name {
+		if prefix == "" || (mod.Prefix != nil && prefix == mod.Prefix.Name) {
 			goto processing
 		}
 
 		for _, i := range mod.Import {
-			if prefix == i.Prefix.Name {
+			if i.Prefix != nil && prefix == i.Prefix.Name {
+				if i.Module == nil {
+					// The import was never satisfied.
+					return nil, fmt.Errorf("%s: unknown module %s", mod.Name, i.Name)
+				}
 				n = i.Module
 				goto processing
 			}
@@ -260,7 +275,7 @@ func FindNode(n Node, path string) (Node, error) {
 		// For now just strip off any prefix
 		// TODO(borman): fix this
 		_, spart := getPrefix(part)
-		n = ChildNode(n, spart)
+		n = childNode(n, spart, using)
 		if n == nil {
 			return nil, fmt.Errorf("%s: no such element", part)
 		}
@@ -273,6 +288,11 @@ func FindNode(n Node, path string) (Node, error) {
 // n as well as every node in all slices of Node pointers.  Names must
 // be non-ambiguous, otherwise ChildNode has a non-deterministic result.
 func ChildNode(n Node, name string) Node {
+	return childNode(n, name, map[Node]bool{})
+}
+
+// childNode is ChildNode; see findNode for using.
+func childNode(n Node, name string, using map[Node]bool) Node {
 	v := reflect.ValueOf(n).Elem()
 	t := v.Type()
 	nf := t.NumField()
@@ -309,8 +329,13 @@ Loop:
 				if !strings.HasPrefix(uname, "/") {
 					uname = "/" + uname
 				}
-				if n, _ = FindNode(n, uname); n != nil {
-					return ChildNode(n, name)
+				if using[n] {
+					return nil
+				}
+				using[n] = true
+				defer delete(using, n)
+				if n, _ = findNode(n, uname, using); n != nil {
+					return childNode(n, name, using)
 				}
 				return nil
 			}
